@@ -18,14 +18,18 @@ CHECKS = {
         deep=True,      # ./check adds --deep for the thorough tier: bounds beyond the promoted ones (see bounds["thorough"])
         level="model_checking",
         runs=[dict(name="drbg", target="h_drbg", args=[], quick=[], thorough=[])],
-        deadline=dict(quick=150, thorough=600),
+        deadline=dict(quick=150, thorough=900),   # deep: ~250 s measured on a loaded machine (generator search ~240 s: 16 MiB requests, level-synchronous)
         bounds=dict(
             quick="generator: crypto_entropy_read(len) for len in {0,1,31,32,33,65535,65536,65537,131073} x {entropy ok, entropy source fails "
                   "at its next call} from every reachable (instantiated, reseed_counter 1..257) state, search to the fixed point (request "
                   "sequences of unbounded length across any number of reseed intervals); OS entropy (util/entropy.c): 48-byte request, every "
                   "answer sequence of open{ok,EACCES}, read{all, each shorter positive length, 0, -1/EIO, -1/EINTR}, close{0, EINTR} with "
                   "<=3 deviations from 'everything at once'",
-            thorough="generator: additionally len in {64,1024,131072,196609}; OS entropy: <=5 deviations"),
+            thorough="generator: additionally len in {64,1024,131072,196609}; OS entropy: <=5 deviations (these bounds also serve the quick tier). "
+                     "./check --tier thorough runs the harness with --deep: generator additionally len in {2,48,63,65,4096,131071,196608,262145,1048577 "
+                     "(17 generate calls),4194305 (65),16777217 (257 generate calls: every such call crosses a reseed, two reseeds inside one call from "
+                     "reseed_counter 257)}, 24 lengths in all, still to the fixed point; OS entropy: requests of 48 bytes (instantiation) and of 32 bytes "
+                     "(reseed), every answer sequence with <=6 deviations (22178776 complete executions)"),
         explanation="generator: states = (instantiated, reseed_counter, Key/V equal the reference's) each with a concrete representative; "
                     "transitions = single real crypto_entropy_read calls executed from the representative and compared byte for byte with an "
                     "SP 800-90A reference over OpenSSL HMAC; OS entropy: every counted trace is one complete entropy_read execution",
@@ -44,7 +48,9 @@ CLAIMS = {
              "entropy requests (48 bytes at instantiation, 32 after every 256 generate calls) equal an independent SP 800-90A HMAC_DRBG "
              "(over OpenSSL HMAC, validated against a NIST CAVP vector) that refuses to generate past the interval; failed "
              "instantiation/reseed states are part of the search, so a later success from an unseeded or stale state would be a mismatch. "
-             "util/entropy.c is explored statelessly over every open/read/close answer sequence within a deviation bound.",
+             "util/entropy.c is explored statelessly over every open/read/close answer sequence within a deviation bound. The thorough tier (--deep) "
+             "adds request lengths up to 16777217 bytes (257 generate calls, one or two reseeds inside a single call) and the 32-byte request of a reseed "
+             "to the OS part, with one more deviation.",
         note="Trusted: engine/ref/ref_hmac_drbg.c + OpenSSL HMAC, the fake entropy source and the open/read/close replacements in "
              "harness/h_drbg.c, the snapshot shim, clang ASan/UBSan. The search key drops Key/V (data independence, re-checked on every "
              "edge against the concrete representative). RDRAND mixing is outside the property; entropy contents other than the pattern "
